@@ -1352,3 +1352,47 @@ def ir_floor_div_shape(prog: Program) -> bool:
         return any(visit(c) for c in children(e) if not isinstance(c, str))
 
     return any(visit(e) for s in prog.stmts for e in stmt_exprs(s))
+
+
+def cse_key(prog: Program):
+    """Returns key(e): a structural key of what expression e computes, looking through names, parentheses,
+    unary plus, folded integer sub-expressions and `cmp : 1` (the decider itself). Two expressions with the
+    same key are one combinator after common-subexpression elimination."""
+    from .alu import arith as _arith
+
+    decls = {s.name: s for s in prog.stmts if isinstance(s, Decl)}
+
+    def key(e, depth=0):
+        while isinstance(e, Paren) or (isinstance(e, Un) and e.op == "+"):
+            e = e.e
+        if depth > 40:
+            return ("deep", id(e))
+        if isinstance(e, Ref):
+            d = decls.get(e.name)
+            if d is None or d.kind not in ("Signal", "Bundle", "int") or is_input_decl(d):
+                return ("n", e.name)
+            return key(d.e, depth + 1)
+        if isinstance(e, Num):
+            return ("c", e.v)
+        if isinstance(e, Bin):
+            l, r = key(e.l, depth + 1), key(e.r, depth + 1)
+            if l[0] == "c" and r[0] == "c" and e.op in ARITH_OPS:
+                try:
+                    return ("c", _arith(e.op, l[1], r[1]))
+                except Exception:  # noqa: BLE001
+                    pass
+            return ("b", e.op, l, r)
+        if isinstance(e, Un):
+            return ("u", e.op, key(e.e, depth + 1))
+        if isinstance(e, Proj):
+            return ("p", key(e.e, depth + 1), repr(e.ty))
+        if isinstance(e, Cond):
+            c, v = key(e.c, depth + 1), key(e.v, depth + 1)
+            if v == ("c", 1) and c[0] == "b" and c[1] in CMP_OPS:
+                return c
+            return ("?", c, v)
+        if isinstance(e, BLit):
+            return ("{}",) + tuple(key(x, depth + 1) for x in e.elems)
+        return ("x", repr(e))
+
+    return key
